@@ -27,6 +27,8 @@ const (
 	opPanicInt  // panic(42)
 	opNilDeref  // runtime error
 	opPanicNil  // panic(nil)
+	opErrorf    // t.Errorf(...)
+	opFatalf    // t.Fatalf(...)
 	numOps
 )
 
@@ -117,6 +119,10 @@ func c06Body(t *testing.T, it int, nact int, prefix string) {
 		case opPanicNil:
 			var v interface{}
 			panic(v)
+		case opErrorf:
+			t.Errorf("value %d is wrong", 7)
+		case opFatalf:
+			t.Fatalf("value %d is fatal", 7)
 		}
 	}
 	w.log = append(w.log, evBodyEnd+it*10000)
@@ -129,9 +135,9 @@ func c06Expect(it, nact int, prefix string) (failed bool, ncl int, completed boo
 		switch op {
 		case opCleanup:
 			ncl++
-		case opFail, opError:
+		case opFail, opError, opErrorf:
 			failed = true
-		case opFailNow, opFatal, opPanicErr, opPanicStr, opPanicInt, opNilDeref, opPanicNil:
+		case opFailNow, opFatal, opFatalf, opPanicErr, opPanicStr, opPanicInt, opNilDeref, opPanicNil:
 			return true, ncl, false
 		}
 	}
@@ -161,7 +167,7 @@ func c06NewScenario(nact int) (*ActiveScenario, *progress.Stats) {
 }
 
 // VerifC06_IterationLifecycle: two consecutive iterations on ONE worker handle, each body an arbitrary
-// program (first body: 2 actions quick / 3 thorough; second body one action fewer) (11 opcodes: register a cleanup with one of 4 behaviours, Fail, Error, FailNow, Fatal,
+// program (first body: 2 actions quick / 3 thorough; second body one action fewer) (13 opcodes: register a cleanup with one of 4 behaviours, Fail, Error, FailNow, Fatal,
 // panic with error/string/int/nil, nil dereference), through the real ActiveScenario.Run, T.Reset, T.teardown,
 // CheckResults and handlePanic:
 //   - Run always returns normally (C07: no panic escapes to the worker)
@@ -260,7 +266,7 @@ func c06IterationLifecycle() {
 }
 
 // VerifC07_Containment: two (quick) / three (thorough) consecutive iterations on ONE worker handle, each body a single arbitrary action
-// (11 opcodes incl. every failure API and panics with error / string / int / nil / runtime error), optionally
+// (13 opcodes incl. every failure API and panics with error / string / int / nil / runtime error), optionally
 // preceded by registering a cleanup with arbitrary behaviour (nop / Fail / FailNow / panic): Run returns normally
 // every time (the worker survives), each iteration is reported by its OWN outcome to both sinks, a failure raised
 // inside a cleanup neither marks the iteration failed nor leaks into the next one, and every body starts with a
